@@ -767,6 +767,104 @@ Section Frag.
         * unfold on_eof. rewrite He1. change (isEOF sk) with (isEOF s1). rewrite He1. cbn [nrm app]. do 2 f_equal.
   Qed.
 
+  (* Read itself: what is left of a chunk's data is consumed like the data after a header *)
+  Lemma read_as_data : forall s X, (0 <= left s)%Z ->
+    nrm (read s X false) = nrm (data_part (par (S (List.length X))) (set_eof s false) (left s) X).
+  Proof.
+    intros s X Hl. unfold SignedChunk.read, data_part. set (s0 := set_eof s false). change (left s0) with (left s).
+    destruct (left s <? Z.of_nat (List.length X))%Z eqn:E; [|reflexivity].
+    destruct (0 <? left s)%Z eqn:E0.
+    - replace (hash_data s0 (firstn (Z.to_nat (left s)) X)) with (set_left (hash_data (set_left s0 0) (firstn (Z.to_nat (left s)) X)) (left s)) by reflexivity.
+      apply nrm_prefix. apply par_left.
+    - assert (H0 : left s = 0%Z) by (apply Z.ltb_ge in E0; lia). rewrite H0. cbn [Z.to_nat firstn skipn].
+      replace (hash_data (set_left s0 0) []) with s0; [reflexivity|].
+      unfold s0, hash_data, set_left, set_eof. proj. rewrite H0, !app_nil_r. reflexivity.
+  Qed.
+
+  Lemma read_split : forall a b s, (0 <= left s)%Z ->
+    match read s a false with
+    | (o1, E_None, s1) => (stash_len s1 <= 1024)%nat ->
+                          nrm (read s (a ++ b) false) = nrm (let '(o2, e2, s2) := read s1 b false in (o1 ++ o2, e2, s2))
+    | (o1, e1, _) => exists sx, read s (a ++ b) false = (o1, e1, sx)
+    end.
+  Proof.
+    intros a b s Hl. unfold SignedChunk.read at 1. set (s0 := set_eof s false). change (left s0) with (left s).
+    assert (He0 : isEOF s0 = false) by reflexivity.
+    destruct (left s <? Z.of_nat (List.length a))%Z eqn:E.
+    - apply Z.ltb_lt in E. set (k := Z.to_nat (left s)). set (d := firstn k a). set (a' := skipn k a).
+      set (s1 := if (0 <? left s)%Z then hash_data s0 d else s0).
+      assert (He1 : isEOF s1 = false) by (unfold s1; destruct (0 <? left s)%Z; reflexivity).
+      assert (Hla : (List.length a' <= List.length a)%nat) by (unfold a'; rewrite skipn_length; lia).
+      assert (Hab : read s (a ++ b) false = let '(out, e, s2) := par (S (S (List.length (a ++ b)))) s1 (a' ++ b) in (d ++ out, e, s2)).
+      { unfold SignedChunk.read. fold s0. change (left s0) with (left s).
+        replace (left s <? Z.of_nat (List.length (a ++ b)))%Z with true by (symmetry; apply Z.ltb_lt; rewrite app_length; lia).
+        fold k. rewrite firstn_app_le, skipn_app_le by (unfold k; lia). fold d a' s1.
+        rewrite (par_fuel (S (List.length (a ++ b))) (S (S (List.length (a ++ b))))); [reflexivity| |]; rewrite !app_length in *; lia. }
+      pose proof (par_split b (S (List.length a)) a' s1 (S (S (List.length (a ++ b)))) He1 ltac:(lia) ltac:(rewrite !app_length in *; lia)) as Hsp.
+      destruct (par (S (List.length a)) s1 a') as [[o e] sx].
+      destruct e; try (destruct Hsp as [sy Hy]; rewrite Hab, Hy; eexists; reflexivity).
+      intros Hbd. specialize (Hsp Hbd). rewrite Hab. apply (nrm_prefix d) in Hsp.
+      destruct (par (S (S (List.length (a ++ b)))) s1 (a' ++ b)) as [[o' e'] sx']. destruct (read sx b false) as [[o2 e2] s2].
+      cbn [nrm] in Hsp |- *. rewrite <- app_assoc. exact Hsp.
+    - apply Z.ltb_ge in E. intros _. rewrite (read_as_data s (a ++ b) Hl). fold s0.
+      apply (data_resume (S (List.length (a ++ b))) s0 (left s) a b He0 E). rewrite app_length. lia.
+  Qed.
+
+  (* ---------- 3e. any fragmentation *)
+  Fixpoint reads (s : cst) (frags : list bytes) : bytes * rerr * cst :=
+    match frags with
+    | [] => ([], E_None, s)
+    | f :: r => let '(o, e, s1) := read s f false in
+                match e with
+                | E_None => let '(o2, e2, s2) := reads s1 r in (o ++ o2, e2, s2)
+                | _ => (o, e, s1)
+                end
+    end.
+
+  Definition good (s : cst) : Prop := (stash_len s <= 1024)%nat /\ (0 <= left s)%Z /\ isEOF s = false.
+
+  (* the states between the fragments are ones the reader can resume from (no pending header beyond its 1024-byte stash limit) *)
+  Fixpoint bounded (s : cst) (frags : list bytes) : Prop :=
+    match frags with
+    | [] => True
+    | f :: r => let '(o, e, s1) := read s f false in match e with E_None => good s1 /\ bounded s1 r | _ => True end
+    end.
+
+  Lemma read_nil : forall s, (0 <= left s)%Z -> isEOF s = false -> read s [] false = ([], E_None, s).
+  Proof.
+    intros s Hl He. unfold SignedChunk.read. cbn [List.length Z.of_nat]. change (left (set_eof s false)) with (left s).
+    replace (left s <? 0)%Z with false by (symmetry; apply Z.ltb_ge; exact Hl). do 2 f_equal.
+    destruct s. cbn in *. subst. unfold hash_data, set_left, set_eof. proj. rewrite !app_nil_r, Z.sub_0_r. reflexivity.
+  Qed.
+
+  Theorem reads_concat : forall frags s, (0 <= left s)%Z -> isEOF s = false -> bounded s frags ->
+    nrm (reads s frags) = nrm (read s (concat frags) false).
+  Proof.
+    induction frags as [|f r IH]; intros s Hl He Hb; cbn [reads concat bounded] in *.
+    - rewrite read_nil by assumption. reflexivity.
+    - pose proof (read_split f (concat r) s Hl) as Hsp. destruct (read s f false) as [[o e] s1].
+      destruct e; try (destruct Hsp as [sx Hx]; rewrite Hx; reflexivity).
+      destruct Hb as [[Hg1 [Hg2 Hg3]] Hb']. rewrite (Hsp Hg1). apply nrm_prefix. apply IH; assumption.
+  Qed.
+
+  Lemma nrm_none_inv : forall X o s, nrm X = nrm (o, E_None, s) -> X = (o, E_None, s).
+  Proof. intros [[o' e'] s'] o s H. cbn in H. destruct e'; inversion H; subst; reflexivity. Qed.
+
+  (* ... which holds as soon as it holds of the states reached by reading prefixes of the stream in one piece *)
+  Lemma bounded_prefix : forall frags s S, (0 <= left s)%Z ->
+    (forall p q o s1, p ++ q = S -> read s p false = (o, E_None, s1) -> good s1) ->
+    (exists q, concat frags ++ q = S) -> bounded s frags.
+  Proof.
+    induction frags as [|f r IH]; intros s S Hl Hp [q Hq]; cbn [bounded concat] in *; [exact I|].
+    destruct (read s f false) as [[o e] s1] eqn:Er. destruct e; try exact I.
+    assert (Hg : good s1) by (apply (Hp f (concat r ++ q) o s1); [rewrite app_assoc; exact Hq|exact Er]).
+    split; [exact Hg|]. destruct Hg as [Hg1 [Hg2 Hg3]].
+    apply (IH s1 (concat r ++ q) Hg2); [|exists q; reflexivity].
+    intros p' q' o2 s2 Hpq Er2. pose proof (read_split f p' s Hl) as Hsp. rewrite Er in Hsp. specialize (Hsp Hg1). rewrite Er2 in Hsp.
+    apply nrm_none_inv in Hsp. apply (Hp (f ++ p') q' (o ++ o2) s2); [|exact Hsp].
+    rewrite <- app_assoc, Hpq, app_assoc. exact Hq.
+  Qed.
+
   (* ---------- 4. valid streams: the encoder the reader is the inverse of *)
   Notation csig := (chunk_signature sha256 hmac256 hex key stsPayload).
   Notation tsign := (trailer_signature sha256 hmac256 hex key stsTrailer).
@@ -872,6 +970,162 @@ Section Frag.
       - unfold bstate, s0, set_eof, init. cbn [stash left prevSig parsedSig hbuf cbuf firstHdr isEOF trailerSig parsedChecksum]. repeat split. left. repeat split.
       - pose proof (enc_len cs true seed []). fold F in H. lia.
       - fold F in Hs'. rewrite app_nil_r in Hs'. rewrite Hs'. cbn [app]. rewrite Htot. reflexivity.
+    Qed.
+
+    (* ---------- 5. every fragmentation of a valid stream *)
+    Hypothesis Hhexlen : forall x, (List.length (hex x) <= 64)%nat.
+    Hypothesis Ha0len : (List.length a0 <= 64)%nat.
+    Hypothesis Htrlen : forall t, trailer = Some t -> (List.length (trailer_sum t total) <= 64)%nat.
+    Definition short_chunk (c : bytes * bytes) : Prop := (List.length (fst c) <= 64)%nat.
+
+    Lemma csig_len : forall prev d, (List.length (csig prev d) <= 64)%nat.
+    Proof. intros. unfold SignedChunk.chunk_signature. apply Hhexlen. Qed.
+    Lemma tname_len : forall t, (List.length (trailer_name t) <= 21)%nat.
+    Proof. intros []; vm_compute; lia. Qed.
+
+    Lemma dhdr_len : forall first a prev d, (List.length a <= 64)%nat -> (List.length (dhdr first a (csig prev d)) <= 200)%nat.
+    Proof.
+      intros first a prev d Ha. unfold dhdr, pre. pose proof (csig_len prev d). destruct first; repeat first [rewrite app_length | progress cbn [List.length]];
+        replace (List.length chunkSigKw) with 16%nat by reflexivity; lia.
+    Qed.
+    Lemma fhdr_len : forall first prev, (List.length (fhdr first a0 (csig prev []) (ck_of total) (tsig_of (csig prev []) total)) <= 400)%nat.
+    Proof.
+      intros first prev. unfold fhdr, ftail, pre, tsig_of, ck_of. pose proof (csig_len prev []).
+      destruct trailer as [t|] eqn:Et.
+      - pose proof (Htrlen t eq_refl). pose proof (tname_len t).
+        assert (Hts : (List.length (tsign t (csig prev []) (trailer_sum t total)) <= 64)%nat) by (unfold SignedChunk.trailer_signature; apply Hhexlen).
+        destruct first; repeat first [rewrite app_length | progress cbn [List.length]];
+          replace (List.length chunkSigKw) with 16%nat by reflexivity; replace (List.length trailerSigKw) with 23%nat by reflexivity; lia.
+      - destruct first; repeat first [rewrite app_length | progress cbn [List.length]]; replace (List.length chunkSigKw) with 16%nat by reflexivity; lia.
+    Qed.
+
+    Lemma prefix_none_data : forall first a sig sz R p q,
+      ~ In 59 a -> parse_hex a = Some sz -> (sz <? 0)%Z = false -> (sz =? 0)%Z = false -> ~ In 13 sig ->
+      p ++ q = dhdr first a sig ++ R -> (List.length p < List.length (dhdr first a sig))%nat -> hparse first p = None.
+    Proof.
+      intros first a sig sz R p q Ha Hp Hn Hz Hs Hpq Hl. destruct (hparse first p) as [h|] eqn:E; [exfalso|reflexivity].
+      pose proof (hparse_mono _ _ _ q E) as Hm. rewrite Hpq, (hparse_dhdr first a sig sz R Ha Hp Hn Hz Hs) in Hm. inversion Hm; subst h.
+      destruct (hparse_data_inv _ _ _ _ _ E) as [a1 [r1 [Heq [Hk _]]]]. rewrite Heq, app_length in Hl. lia.
+    Qed.
+
+    Lemma prefix_none_final : forall first prev p q,
+      p ++ q = fhdr first a0 (csig prev []) (ck_of total) (tsig_of (csig prev []) total) ->
+      (List.length p < List.length (fhdr first a0 (csig prev []) (ck_of total) (tsig_of (csig prev []) total)))%nat -> hparse first p = None.
+    Proof.
+      intros first prev p q Hpq Hl. destruct (hparse first p) as [h|] eqn:E; [exfalso|reflexivity].
+      pose proof (hparse_mono _ _ _ q E) as Hm. rewrite Hpq in Hm. rewrite <- (app_nil_r (fhdr _ _ _ _ _)) in Hm.
+      destruct Hfin as [Ha0 Hp0].
+      rewrite (hparse_fhdr first a0 (csig prev []) (ck_of total) (tsig_of (csig prev []) total) [] Ha0 Hp0 (Hhex13 _)) in Hm.
+      2: { intros t Et. destruct (Htr t Et) as [H1 H2]. unfold tsig_of, ck_of. rewrite Et. repeat split; try assumption. apply Hhex13. }
+      inversion Hm; subst h. pose proof (hparse_final_len _ _ _ _ _ E). lia.
+    Qed.
+
+    Lemma par_enc_prefix : forall cs first prev pay s f p q,
+      Forall wf_chunk cs -> Forall short_chunk cs -> pay ++ concat (map snd cs) = total -> bstate s first prev pay -> isEOF s = false ->
+      (List.length p < f)%nat -> p ++ q = enc first prev pay cs a0 ->
+      forall o s1, par f s p = (o, E_None, s1) -> good s1.
+    Proof.
+      induction cs as [|[a d] cs IH]; intros first prev pay s f p q Hwf Hsh Htot Hb Heof Hf Hpq o sx Hpar.
+      - cbn [enc] in Hpq. set (F := fhdr first a0 (csig prev []) (ck_of pay) (tsig_of (csig prev []) pay)) in *.
+        assert (Hpay : pay = total) by (cbn [concat map] in Htot; rewrite app_nil_r in Htot; exact Htot). subst pay.
+        destruct (le_lt_dec (List.length F) (List.length p)) as [Hge|Hlt].
+        + (* the whole final header: the read ends the stream, not E_None *)
+          assert (Hp : p = F). { apply (f_equal (@List.length N)) in Hpq as Hlen. rewrite app_length in Hlen. assert (Hq : q = []) by (destruct q; [reflexivity|cbn [List.length] in Hlen; lia]). subst q. rewrite app_nil_r in Hpq. exact Hpq. }
+          destruct (par_enc [] first prev total s f [] Hwf Htot Hb ltac:(cbn [List.length]; lia)) as [s' Hs']. cbn [enc] in Hs'. fold F in Hs'. rewrite app_nil_r, <- Hp in Hs'.
+          rewrite Hs' in Hpar. discriminate Hpar.
+        + destruct f as [|f]; [lia|]. rewrite par_S in Hpar. unfold par_body in Hpar.
+          destruct (pending_bstate _ _ _ _ Hb) as [s1 [Hpend [Hst [Hfirst [Hcb [Hprev [Hps Hhb]]]]]]]. rewrite Hpend in Hpar. cbn [negb] in Hpar.
+          destruct (pending_fields _ _ _ Hpend) as [_ [_ [He1 _]]]. rewrite Heof in He1.
+          rewrite parse_header_h in Hpar. unfold stash_len, stash_bytes in Hpar. rewrite Hst in Hpar. cbn [List.length Nat.ltb Nat.leb app] in Hpar. rewrite Hfirst in Hpar.
+          rewrite (prefix_none_final first prev p q Hpq Hlt) in Hpar. unfold on_eof in Hpar. rewrite He1 in Hpar. injection Hpar as Ho Hsx; subst o sx.
+          unfold good, stash_len, stash_bytes, set_left, set_stash. proj. repeat split; try lia; try assumption.
+          pose proof (fhdr_len first prev). fold F in H. lia.
+      - cbn [enc concat map snd] in *. inversion Hwf as [|c cs' [Ha [Hp Hd]] Hwf']; subst c cs'. inversion Hsh as [|c cs' Hsa Hsh']; subst c cs'.
+        cbn [fst snd] in Ha, Hp, Hd. unfold short_chunk in Hsa. cbn [fst] in Hsa.
+        set (sig := csig prev d) in *. set (E := enc false sig (pay ++ d) cs a0) in *.
+        assert (Hneg : (Z.of_nat (List.length d) <? 0)%Z = false) by (apply Z.ltb_ge; lia).
+        assert (Hz : (Z.of_nat (List.length d) =? 0)%Z = false) by (apply Z.eqb_neq; destruct d; [exfalso; apply Hd; reflexivity|cbn [List.length]; lia]).
+        assert (Hs13 : ~ In 13 sig) by (apply Hhex13).
+        destruct f as [|f]; [lia|]. rewrite par_S in Hpar. unfold par_body in Hpar.
+        destruct (pending_bstate _ _ _ _ Hb) as [s1 [Hpend [Hst [Hfirst [Hcb [Hprev [Hps Hhb]]]]]]]. rewrite Hpend in Hpar. cbn [negb] in Hpar.
+        destruct (pending_fields _ _ _ Hpend) as [_ [_ [He1 _]]]. rewrite Heof in He1.
+        rewrite parse_header_h in Hpar. unfold stash_len, stash_bytes in Hpar. rewrite Hst in Hpar. cbn [List.length Nat.ltb Nat.leb app] in Hpar. rewrite Hfirst in Hpar.
+        set (L := List.length (dhdr first a sig)) in *.
+        destruct (le_lt_dec L (List.length p)) as [Hge|Hlt].
+        + (* the header is complete *)
+          pose proof (app_prefix_split p q (dhdr first a sig) (d ++ E) Hpq Hge) as Hp2. fold L in Hp2. set (p2 := skipn L p) in *.
+          assert (Hp2q : p2 ++ q = d ++ E) by (rewrite Hp2, <- app_assoc in Hpq; apply app_inv_head in Hpq; exact Hpq).
+          rewrite Hp2 in Hpar. rewrite (hparse_dhdr first a sig _ p2 Ha Hp Hneg Hz Hs13) in Hpar. cbn [apply_h] in Hpar. rewrite Hz in Hpar. fold L in Hpar.
+          replace (Z.of_nat L - Z.of_nat 0)%Z with (Z.of_nat L) in Hpar by lia.
+          replace ((Z.of_nat L <? 0)%Z || (Z.of_nat (List.length (dhdr first a sig ++ p2)) <? Z.of_nat L)%Z) with false in Hpar
+            by (symmetry; apply orb_false_intro; apply Z.ltb_ge; rewrite ?app_length; fold L; lia).
+          rewrite Nat2Z.id in Hpar. unfold L in Hpar. rewrite skipn_len_app in Hpar. unfold data_part in Hpar.
+          match type of Hpar with context [hash_data (set_left ?S3 0) _] => set (s3 := S3) in * end.
+          destruct (Z.of_nat (List.length d) <? Z.of_nat (List.length p2))%Z eqn:El.
+          * apply Z.ltb_lt in El. pose proof (app_prefix_split p2 q d E Hp2q ltac:(lia)) as Hp3. set (p3 := skipn (List.length d) p2) in *.
+            assert (Hp3q : p3 ++ q = E) by (rewrite Hp3, <- app_assoc in Hp2q; apply app_inv_head in Hp2q; exact Hp2q).
+            rewrite Nat2Z.id in Hpar. cbv zeta in Hpar. rewrite Hp3 in Hpar. rewrite firstn_len_app, skipn_len_app in Hpar.
+            destruct (par f (hash_data (set_left s3 0) d) p3) as [[o' e'] s'] eqn:Erec. inversion Hpar; subst o e' s'.
+            eapply (IH false sig (pay ++ d) (hash_data (set_left s3 0) d) f p3 q Hwf' Hsh'); [| | | |exact Hp3q|exact Erec].
+            -- rewrite <- app_assoc. exact Htot.
+            -- unfold bstate, s3, hash_data, set_left, set_parsed. proj. repeat split; try reflexivity; [rewrite Hcb; reflexivity|]. right. rewrite Hprev, Hhb. cbn [app]. repeat split; try reflexivity. apply Hhexne.
+            -- unfold s3, hash_data, set_left, set_parsed. proj. exact He1.
+            -- rewrite Hp2, Hp3, !app_length in Hf. lia.
+          * injection Hpar as Ho Hsx; subst o sx. unfold good, stash_len, stash_bytes, s3, hash_data, set_left, set_parsed. proj. apply Z.ltb_ge in El. repeat split; [cbn; lia|lia|exact He1].
+        + rewrite (prefix_none_data first a sig _ (d ++ E) p q Ha Hp Hneg Hz Hs13 Hpq Hlt) in Hpar. unfold on_eof in Hpar. rewrite He1 in Hpar. injection Hpar as Ho Hsx; subst o sx.
+          unfold good, stash_len, stash_bytes, set_left, set_stash. proj. repeat split; try lia; try assumption.
+          pose proof (dhdr_len first a prev d Hsa). fold sig L in H. lia.
+    Qed.
+
+    Lemma run_reads : forall frags s acc,
+      run s (map (fun f => (f, false)) frags) acc =
+      let '(o, e, s') := reads s frags in
+      match e with
+      | E_None => let '(o2, e2, _) := read s' [] true in (acc ++ o ++ o2, e2)
+      | _ => (acc ++ o, e)
+      end.
+    Proof.
+      induction frags as [|f r IH]; intros s acc; cbn [map SignedChunk.run reads].
+      - destruct (read s [] true) as [[o2 e2] sx]. reflexivity.
+      - destruct (read s f false) as [[o e] s1]. destruct e; try reflexivity.
+        rewrite IH. destruct (reads s1 r) as [[o' e'] s2]. destruct e'; rewrite <- ?app_assoc; try reflexivity.
+        destruct (read s2 [] true) as [[o2 e2] sx]. rewrite <- !app_assoc. reflexivity.
+    Qed.
+
+    Lemma init_bstate : forall seed, bstate (set_eof (init seed) false) true seed [].
+    Proof. intros seed. unfold bstate, set_eof, init. proj. repeat split. left. repeat split. Qed.
+
+    Lemma read_whole : forall seed cs, Forall wf_chunk cs -> concat (map snd cs) = total ->
+      exists s', read (init seed) (enc true seed [] cs a0) false = (total, E_EOF, s').
+    Proof.
+      intros seed cs Hwf Htot. unfold SignedChunk.read. set (F := enc true seed [] cs a0). set (s0 := set_eof (init seed) false).
+      assert (HF : (0 < List.length F)%nat) by (pose proof (enc_len cs true seed []); fold F in H; lia).
+      replace (left s0 <? Z.of_nat (List.length F))%Z with true by (symmetry; apply Z.ltb_lt; cbn; lia).
+      change (left s0) with 0%Z. cbn [Z.to_nat firstn skipn Z.ltb Z.compare].
+      destruct (par_enc cs true seed [] s0 (S (List.length F)) [] Hwf Htot (init_bstate seed)) as [s' Hs'].
+      - pose proof (enc_len cs true seed []). fold F in H. lia.
+      - fold F in Hs'. rewrite app_nil_r in Hs'. rewrite Hs'. cbn [app]. rewrite Htot. eexists. reflexivity.
+    Qed.
+
+    (* C12, the signed reader: however the encoded bytes are split across reads, the payload comes out and the stream ends cleanly *)
+    Theorem decode_fragmented : forall seed cs frags,
+      Forall wf_chunk cs -> Forall short_chunk cs -> concat (map snd cs) = total -> concat frags = enc true seed [] cs a0 ->
+      run (init seed) (map (fun f => (f, false)) frags) [] = (total, E_EOF).
+    Proof.
+      intros seed cs frags Hwf Hsh Htot Hfr. set (STR := enc true seed [] cs a0) in *.
+      assert (Hl0 : (0 <= left (init seed))%Z) by (cbn; lia).
+      assert (Hbd : bounded (init seed) frags).
+      { apply (bounded_prefix frags (init seed) STR Hl0); [|exists []; rewrite app_nil_r; exact Hfr].
+        intros p q o s1 Hpq Hr. destruct p as [|x p'].
+        - rewrite read_nil in Hr by (cbn; try lia; reflexivity). injection Hr as _ Hs; subst s1. unfold good. cbn. repeat split; lia.
+        - unfold SignedChunk.read in Hr. set (s0 := set_eof (init seed) false) in *. change (left s0) with 0%Z in Hr.
+          replace (0 <? Z.of_nat (List.length (x :: p')))%Z with true in Hr by (symmetry; apply Z.ltb_lt; cbn [List.length]; lia).
+          cbn [Z.to_nat firstn skipn Z.ltb Z.compare] in Hr.
+          destruct (par (S (List.length (x :: p'))) s0 (x :: p')) as [[o' e'] s'] eqn:Ep. injection Hr as Ho He Hs; subst o e' s'.
+          apply (par_enc_prefix cs true seed [] s0 (S (List.length (x :: p'))) (x :: p') q Hwf Hsh Htot (init_bstate seed) eq_refl ltac:(lia) Hpq o' s1 Ep). }
+      pose proof (reads_concat frags (init seed) Hl0 eq_refl Hbd) as Hrc. rewrite Hfr in Hrc.
+      destruct (read_whole seed cs Hwf Htot) as [s' Hs']. fold STR in Hs'. rewrite Hs' in Hrc.
+      rewrite run_reads. destruct (reads (init seed) frags) as [[o e] sx]. cbn [nrm] in Hrc. inversion Hrc; subst. reflexivity.
     Qed.
   End Valid.
 End Frag.
